@@ -21,3 +21,12 @@ Theorem C03_counter_padding_current_refuted :
     concat (compact_col None m srcs) <> concat (map (expand None) srcs).
 Proof. exact counter_padding_refuted. Qed.
 Print Assumptions C03_counter_padding_current_refuted.
+
+(* finding C03-unordered-delete-gap: today's deleteUnorderedFiles goes on after a failed removal: an older input stays visible
+   while a newer one is gone (not a suffix of the inputs: after restart its rows override newer merged rows) *)
+Theorem C03_unordered_gap_current_refuted :
+  exists inuse fails us st liveU,
+    let r := unord_loop inuse fails 0 us st liveU in
+    files (fst r) (1%N, false) <> None /\ files (fst r) (2%N, false) = None /\ files st (2%N, false) <> None.
+Proof. exact unord_current_gap_refuted. Qed.
+Print Assumptions C03_unordered_gap_current_refuted.
